@@ -72,6 +72,12 @@ theorem fact_latest_is_highest_version :
       "Where:did = ? AND updated_at <= ?"] ∧
     Facts.C13.createOrUpdateQuery = ["Order:version desc", "Preload:DID", "Where:did = ?"] := by decide
 
+/-- manager.go `Create`: the "subject already exists" check (`NewDIDManager(tx).FindBySubject(subject)`) is made INSIDE the
+    function literal handed to `transactionHelper`, i.e. in the SQL transaction that inserts the DIDs, and no existence
+    check is made outside of it: check and write are one atomic step (`tx1Create`) -/
+theorem fact_create_checks_subject_inside_transaction :
+    Facts.C13.createChecksSubjectInsideTransaction = true ∧ Facts.C13.createSubjectChecksOutsideTransaction = [] := by decide
+
 /-- the configuration the source describes today -/
 def cfgNow (methods : List Method) : Cfg :=
   { methods := methods
@@ -207,9 +213,34 @@ theorem subject_unique (hfix : Fixed cfg) (hms : cfg.methods.Nodup) {w : World} 
   · intro r hr r2 hr2 hs hm
     exact eq_of_nodup_map (·.id) w.dids hi.idsNodup r hr r2 hr2 (hi.oneMethod r hr r2 hr2 hs hm)
   · rintro s order f ⟨r, hr, hs⟩
-    have : w.dids.any (fun r => decide (r.subject = s)) = true := by
-      simp only [List.any_eq_true, decide_eq_true_eq]; exact ⟨r, hr, hs⟩
+    have : subjectExists w s = true := by
+      simp only [subjectExists, List.any_eq_true, decide_eq_true_eq]; exact ⟨r, hr, hs⟩
     simp [stepOp, tx1, tx1Create, this]
+
+/-- `Create` = existence check + write in ONE atomic step. Every interleaving of requests whose steps are atomic is a
+    sequence of `stepOp`s, so `subject_unique` (over `Reach`) covers any number of concurrent Creates of one name:
+    the first to run its transaction wins, the others get "exists". -/
+theorem create_check_and_write_are_one_step (w : World) (s : String) :
+    tx1Create cfg w s = if subjectExists w s then .err "exists" else .ok (createWrite cfg w s) := rfl
+
+/-- … and atomicity is what it rests on: if the check were made BEFORE the transaction (check-then-act), two requests for
+    the same name that both check before either writes would both write: the subject gets two did:nuts and two did:web
+    DIDs (witness for the negation; the `did` table has no unique constraint on `subject`) -/
+theorem non_atomic_create_breaks_subject_unique :
+    let cfg := cfgNow [.nuts, .web]
+    let w0 : World := {}
+    let check1 := subjectExists w0 "s"          -- request 1 checks
+    let check2 := subjectExists w0 "s"          -- request 2 checks before request 1 has written
+    let w1 := (createWrite cfg w0 "s").1        -- request 1 writes
+    let w2 := (createWrite cfg w1 "s").1        -- request 2 writes
+    check1 = false ∧ check2 = false ∧
+    (w2.dids.filter (fun r => r.subject = "s")).map (·.method) = [.nuts, .web, .nuts, .web] ∧
+    ¬ (∀ r ∈ w2.dids, ∀ r2 ∈ w2.dids, r.subject = r2.subject → r.method = r2.method → r = r2) := by
+  refine ⟨by decide, by decide, by decide, ?_⟩
+  intro h
+  have := h _ (List.mem_cons_self ..) _ (List.mem_cons_of_mem _ (List.mem_cons_of_mem _ (List.mem_cons_self ..))) rfl rfl
+  revert this
+  decide
 
 /-- **after the sweep no change records remain and every DID shows a version it had before**: in every reachable world
     in which all change records are older than the threshold, the sweep succeeds, leaves no change record, keeps every
@@ -400,7 +431,12 @@ example :
     so after `failed_commit_restores` (rows restored) the same operation is enabled exactly as it was -/
 theorem retry_enabled {w w' : World} (o : Op) (hd : w'.dids = w.dids) :
     (tx1 cfg w' o).isOk = (tx1 cfg w o).isOk := by
-  cases o <;> simp only [tx1, tx1Create, tx1Update, hd] <;> (repeat' split) <;> rfl
+  cases o with
+  | create s =>
+    have : subjectExists w' s = subjectExists w s := by simp only [subjectExists, hd]
+    simp only [tx1, tx1Create, this]
+    split <;> rfl
+  | _ => simp only [tx1, tx1Update, hd] <;> (repeat' split) <;> rfl
 
 end
 
